@@ -166,8 +166,7 @@ def run_batch(prop, verif_seed, n_runs=None, budget_s=None, workers=16, pristine
                 total["distinct"].update(agg["distinct"])
                 total["violating"].extend(agg["violating"])
                 total["seeded"].update(agg["seeded"])
-                if keep_fps:
-                    total["fps"].update(agg["fps"])
+                total["fps"].update(agg["fps"])
                 total["samples"].extend(agg["samples"])
                 total["harness_errors"].extend(agg["harness_errors"])
                 if agg["violating"] and stop_on_violation:
